@@ -26,9 +26,9 @@ theorem inDomain_parts {p : Provider} {e : Event} (h : inDomain p e = true) :
   simp only [Bool.and_eq_true, bne_iff_ne, ne_eq] at h
   exact ⟨h.1.1.1, h.1.1.2, h.1.2⟩
 
-/-- The model's check with a freshly built context decides what the rules (as implemented) decide, for every
+/-- The model's check with a freshly built context decides what the rules (departures D1–D17) decide, for every
     event class — the dispatch of `Ctx.allowed` against `rulesDecision`. -/
-theorem ctx_allowed_eq_rules (c : Ctx) (p : Provider) (hf : Fresh p c) (e : Event) (sig : Bool) (sv : SpecVersion)
+theorem ctx_allowed_eq_spec (c : Ctx) (p : Provider) (hf : Fresh p c) (e : Event) (sig : Bool) (sv : SpecVersion)
     (hsv : specVersion? e.ver = some sv) (hdom : inDomain p e = true) :
     accepts (c.allowed e sig) = some (rulesDecision lib c p sv e sig) := by
   obtain ⟨hrowS, hroom, hsender⟩ := inDomain_parts hdom
@@ -72,11 +72,12 @@ theorem ctx_allowed_eq_rules (c : Ctx) (p : Provider) (hf : Fresh p c) (e : Even
               simp only [h5', Bool.false_eq_true, if_false]
               exact default_eq c p hf e hsender hroom hdom.2.1
 
-/-- **C07 (as implemented).**  For every event, set of auth events and signature oracle: whenever the rules — the
-    transcription with D1–D15 and the candidate departures U1–U7 — give an answer, the model of `Allowed` gives the
-    same answer (it neither panics nor leaves the modelled domain). -/
-theorem allowed_eq_rules (e : Event) (p : Provider) (sig : Bool) (b : Bool)
-    (h : rulesAllow Departures.asImplemented e p sig = some b) : decision (allowedFresh e p sig) = some b := by
+/-- **C07.**  For every event, room version, set of auth events and signature oracle: whenever the authorisation rules
+    — the transcription `rulesAllow` with exactly the documented departures of DESIGN.md §6.1 (`Departures.library`,
+    D1–D17) — give an answer, the model of `Allowed` gives the same answer; it neither panics nor leaves the modelled
+    domain.  (`rulesAllow … = none` only outside the modelled domain `inDomain`.) -/
+theorem allowed_eq_spec (e : Event) (p : Provider) (sig : Bool) (b : Bool)
+    (h : rulesAllow Departures.library e p sig = some b) : decision (allowedFresh e p sig) = some b := by
   unfold rulesAllow at h
   unfold allowedFresh decision
   by_cases hv : (!p.valid) = true
@@ -98,7 +99,7 @@ theorem allowed_eq_rules (e : Event) (p : Provider) (sig : Bool) (b : Bool)
         by_cases hdom : inDomain p e = true
         · simp only [hdom, if_true, Option.some.injEq] at h
           subst h
-          exact decision_of_accepts _ _ (ctx_allowed_eq_rules c p hf e sig sv hsv hdom)
+          exact decision_of_accepts _ _ (ctx_allowed_eq_spec c p hf e sig sv hsv hdom)
         · simp only [hdom, if_false, Bool.false_eq_true] at h
           cases h
 
@@ -133,16 +134,16 @@ theorem no_panic_allowed (e : Event) (p : Provider) (sig : Bool) (hr : e.roomID 
         subst h
         exact this hca
 
-/-! ## Per event class (what `allowed_eq_rules` is assembled from)
+/-! ## Per event class (what `allowed_eq_spec` is assembled from)
 
 Each statement: for a freshly built context `c` of the auth events `p` (`Fresh p c`), an event `e` of the class inside
-the modelled domain, the model's check decides exactly the rule's formula.  `lib` = `Departures.asImplemented`. -/
+the modelled domain, the model's check decides exactly the rule's formula.  `lib` = `Departures.library`. -/
 
 /-- rule 1 -/
 theorem create_eq_spec (c : Ctx) (p : Provider) (hf : Fresh p c) (e : Event) (sig : Bool) (sv : SpecVersion)
     (hsv : specVersion? e.ver = some sv) (hdom : inDomain p e = true) (ht : (e.type == b!"m.room.create") = true) :
     accepts (c.createEventAllowed e) = some (ruleCreate lib sv e) := by
-  have := ctx_allowed_eq_rules c p hf e sig sv hsv hdom
+  have := ctx_allowed_eq_spec c p hf e sig sv hsv hdom
   unfold Ctx.allowed rulesDecision at this
   simpa only [ht, if_true] using this
 
@@ -156,7 +157,7 @@ theorem aliases_eq_spec (c : Ctx) (p : Provider) (hf : Fresh p c) (e : Event) (h
 theorem member_eq_spec (c : Ctx) (p : Provider) (hf : Fresh p c) (e : Event) (sig : Bool) (sv : SpecVersion)
     (hsv : specVersion? e.ver = some sv) (hdom : inDomain p e = true) (ht : (e.type == b!"m.room.member") = true) :
     accepts (c.memberEventAllowed e sig) = some (ruleMember lib c p sv e sig) := by
-  have := ctx_allowed_eq_rules c p hf e sig sv hsv hdom
+  have := ctx_allowed_eq_spec c p hf e sig sv hsv hdom
   unfold Ctx.allowed rulesDecision at this
   have h1 : (e.type == b!"m.room.create") = false := by
     have : e.type = b!"m.room.member" := by simpa using ht
@@ -186,7 +187,7 @@ theorem memberCheck_eq {m : MembershipAllower} {i : MemberInputs} {row : VGen.Ve
   | true => simpa using allowedSelf_eq h hs (hso hs)
   | false => simpa using allowedOther_eq h hs
 
-/-- 5.3 join (every join rule, restricted joins with every authoriser state; D9, D12 is in `ruleFirstJoin`; U1, U2) -/
+/-- 5.3 join (every join rule, restricted joins with every authoriser state; D9, D16; D12 is in `ruleFirstJoin`) -/
 theorem member_join_eq_spec {m : MembershipAllower} {i : MemberInputs} {row : VGen.VersionRow} (h : Rel m i row)
     (hso : i.selfSent = true → i.snd = i.old) (hn : i.new.membership = b!"join") :
     accepts (memberCheck m i) = some (ruleJoin lib i) := by
@@ -196,25 +197,25 @@ theorem member_join_eq_spec {m : MembershipAllower} {i : MemberInputs} {row : VG
 theorem member_invite_eq_spec {m : MembershipAllower} {i : MemberInputs} {row : VGen.VersionRow} (h : Rel m i row)
     (hso : i.selfSent = true → i.snd = i.old) (hn : i.new.membership = b!"invite") :
     accepts (memberCheck m i) = some (ruleInvite Departures.library i) := by
-  rw [memberCheck_eq h hso]; simp [ruleByMembership, hn]; rfl
+  rw [memberCheck_eq h hso]; simp [ruleByMembership, hn]
 
 /-- 5.5 leave (D1, D10) -/
 theorem member_leave_eq_spec {m : MembershipAllower} {i : MemberInputs} {row : VGen.VersionRow} (h : Rel m i row)
     (hso : i.selfSent = true → i.snd = i.old) (hn : i.new.membership = b!"leave") :
     accepts (memberCheck m i) = some (ruleLeave Departures.library i) := by
-  rw [memberCheck_eq h hso]; simp [ruleByMembership, hn]; rfl
+  rw [memberCheck_eq h hso]; simp [ruleByMembership, hn]
 
 /-- 5.6 ban -/
 theorem member_ban_eq_spec {m : MembershipAllower} {i : MemberInputs} {row : VGen.VersionRow} (h : Rel m i row)
     (hso : i.selfSent = true → i.snd = i.old) (hn : i.new.membership = b!"ban") :
     accepts (memberCheck m i) = some (ruleBan Departures.library i) := by
-  rw [memberCheck_eq h hso]; simp [ruleByMembership, hn]; rfl
+  rw [memberCheck_eq h hso]; simp [ruleByMembership, hn]
 
 /-- 5.7 knock (D9) -/
 theorem member_knock_eq_spec {m : MembershipAllower} {i : MemberInputs} {row : VGen.VersionRow} (h : Rel m i row)
     (hso : i.selfSent = true → i.snd = i.old) (hn : i.new.membership = b!"knock") :
     accepts (memberCheck m i) = some (ruleKnock Departures.library i) := by
-  rw [memberCheck_eq h hso]; simp [ruleByMembership, hn]; rfl
+  rw [memberCheck_eq h hso]; simp [ruleByMembership, hn]
 
 /-- 5.4.1 third-party invites (D7): the model's `membershipAllowedFromThirdPartyInvite` against the rule -/
 theorem third_party_eq_spec (i : MemberInputs) (s : ThirdPartySigned) (tpKeys : Nat)
@@ -235,7 +236,7 @@ theorem third_party_eq_spec (i : MemberInputs) (s : ThirdPartySigned) (tpKeys : 
 theorem power_levels_eq_spec (c : Ctx) (p : Provider) (hf : Fresh p c) (e : Event) (sig : Bool) (sv : SpecVersion)
     (hsv : specVersion? e.ver = some sv) (hdom : inDomain p e = true) (ht : (e.type == b!"m.room.power_levels") = true) :
     accepts (c.powerLevelsEventAllowed e) = some (rulePowerLevels lib c p sv e) := by
-  have := ctx_allowed_eq_rules c p hf e sig sv hsv hdom
+  have := ctx_allowed_eq_spec c p hf e sig sv hsv hdom
   unfold Ctx.allowed rulesDecision at this
   have hty : e.type = b!"m.room.power_levels" := by simpa using ht
   have h1 : (e.type == b!"m.room.create") = false := by rw [hty]; decide
@@ -243,11 +244,11 @@ theorem power_levels_eq_spec (c : Ctx) (p : Provider) (hf : Fresh p c) (e : Even
   have h3 : (e.type == b!"m.room.member") = false := by rw [hty]; decide
   simpa only [ht, h1, h2, h3, if_true, Bool.false_eq_true, if_false, Bool.false_and] using this
 
-/-- rule 11 (D5, U4) -/
+/-- rule 11 (D5, D17) -/
 theorem redaction_eq_spec (c : Ctx) (p : Provider) (hf : Fresh p c) (e : Event) (sig : Bool) (sv : SpecVersion)
     (hsv : specVersion? e.ver = some sv) (hdom : inDomain p e = true) (ht : (e.type == b!"m.room.redaction") = true) :
     accepts (c.redactEventAllowed e) = some (ruleRedaction lib c p e) := by
-  have := ctx_allowed_eq_rules c p hf e sig sv hsv hdom
+  have := ctx_allowed_eq_spec c p hf e sig sv hsv hdom
   unfold Ctx.allowed rulesDecision at this
   have hty : e.type = b!"m.room.redaction" := by simpa using ht
   have h1 : (e.type == b!"m.room.create") = false := by rw [hty]; decide
@@ -256,14 +257,14 @@ theorem redaction_eq_spec (c : Ctx) (p : Provider) (hf : Fresh p c) (e : Event) 
   have h4 : (e.type == b!"m.room.power_levels") = false := by rw [hty]; decide
   simpa only [ht, h1, h2, h3, h4, if_true, Bool.false_eq_true, if_false, Bool.false_and] using this
 
-/-- rules 3, m.federate, 6–9, 12: every other event type (U3 for m.room.third_party_invite events) -/
+/-- rules 3, m.federate, 6–9, 12: every other event type -/
 theorem default_eq_spec (c : Ctx) (p : Provider) (hf : Fresh p c) (e : Event) (sig : Bool) (sv : SpecVersion)
     (hsv : specVersion? e.ver = some sv) (hdom : inDomain p e = true)
     (h1 : (e.type == b!"m.room.create") = false) (h2 : (e.type == b!"m.room.aliases") = false)
     (h3 : (e.type == b!"m.room.member") = false) (h4 : (e.type == b!"m.room.power_levels") = false)
     (h5 : (e.type == b!"m.room.redaction") = false) :
     accepts (c.defaultEventAllowed e) = some (ruleCommon lib c p e) := by
-  have := ctx_allowed_eq_rules c p hf e sig sv hsv hdom
+  have := ctx_allowed_eq_spec c p hf e sig sv hsv hdom
   unfold Ctx.allowed rulesDecision at this
   simpa only [h1, h2, h3, h4, h5, Bool.false_eq_true, if_false, Bool.false_and] using this
 
@@ -291,224 +292,6 @@ theorem spec_table_stable :
     (specTable.filter (fun r => r.2.aliases)).map (·.1) = ["1", "2", "3", "4", "5"] ∧
     (specTable.filter (fun r => !r.2.notifications)).map (·.1) = ["1", "2", "3", "4", "5"] := by
   decide
-
-/-! ## The rules of DESIGN.md §6.1 (`Departures.library`) versus what the code decides -/
-
-/-- Input shapes on which one of the candidate departures U1–U7 (behaviour of the code that DESIGN.md §6.1 does not
-    list) can change the verdict — a conservative, syntactic over-approximation. -/
-def touchesUndocumented (c : Ctx) (p : Provider) (sv : SpecVersion) (e : Event) : Bool :=
-  if e.type == b!"m.room.create" then sv.createRules == 2                              -- U5
-  else if e.type == b!"m.room.aliases" then false
-  else if e.type == b!"m.room.member" then
-    (match newMemberOf e with
-     | some nm =>
-       nm.mxidMappingUserID.isSome                                                      -- U7
-       || (nm.thirdPartyInvite.isSome && nm.membership != b!"invite")                  -- U6
-       || (nm.membership == b!"join"
-           && !(c.joinRule == b!"restricted" || c.joinRule == b!"knock_restricted")
-           && (!(c.joinRule == b!"invite" || (sv.knock && c.joinRule == b!"knock") || c.joinRule == b!"public")   -- U1
-               || (c.joinRule == b!"public" &&                                          -- U2
-                   (match e.stateKey with
-                    | some t => (match membershipOf p t with
-                                 | some om => !(om.membership == b!"invite" || om.membership == b!"join" || om.membership == b!"leave")
-                                 | none => false)
-                    | none => false))))
-     | none => false)
-  else if e.type == b!"m.room.power_levels" then false
-  else if e.type == b!"m.room.redaction" then (domainFromID e.redacts).isNone           -- U4
-  else e.type == b!"m.room.third_party_invite" && !ruleAtStateKey e                     -- U3
-
-theorem ruleCommon_lib (c : Ctx) (p : Provider) (e : Event)
-    (h : (e.type == b!"m.room.third_party_invite" && !ruleAtStateKey e) = false) :
-    ruleCommon Departures.library c p e = ruleCommon Departures.asImplemented c p e := by
-  unfold ruleCommon
-  have h1 : Departures.library.u3_thirdPartyInviteRule9 = false := rfl
-  have h2 : Departures.asImplemented.u3_thirdPartyInviteRule9 = true := rfl
-  have hp : ∀ u, powerOf Departures.library c u = powerOf Departures.asImplemented c u := fun _ => rfl
-  simp only [h1, h2, hp, Bool.not_false, Bool.true_and, Bool.not_true, Bool.false_and, Bool.or_false]
-  split
-  · congr 1
-    cases hr : ruleAtStateKey e
-    · simp only [hr, Bool.not_false, Bool.and_true] at h
-      simp [h]
-    · rfl
-  · rfl
-
-theorem ruleJoin_lib (i : MemberInputs)
-    (h : ((!(i.c.joinRule == b!"restricted" || i.c.joinRule == b!"knock_restricted"))
-           && (!(i.c.joinRule == b!"invite" || (i.sv.knock && i.c.joinRule == b!"knock") || i.c.joinRule == b!"public")
-               || (i.c.joinRule == b!"public" &&
-                   !(i.old.membership == b!"invite" || i.old.membership == b!"join" || i.old.membership == b!"leave")))) = false) :
-    ruleJoin Departures.library i = ruleJoin Departures.asImplemented i := by
-  unfold ruleJoin restrictedApplies authorisedJoin inviteLikeRule MemberInputs.joinRule
-  have h1 : Departures.library.u1_invitedJoinsAnyRule = false := rfl
-  have h2 : Departures.asImplemented.u1_invitedJoinsAnyRule = true := rfl
-  have h3 : Departures.library.u2_publicJoinFromLeaveOnly = false := rfl
-  have h4 : Departures.asImplemented.u2_publicJoinFromLeaveOnly = true := rfl
-  have h5 : Departures.library.d9_knockRestrictedEarly = true := rfl
-  have h6 : Departures.asImplemented.d9_knockRestrictedEarly = true := rfl
-  have h7 : Departures.library.d14_pseudoIDs = true := rfl
-  have h8 : Departures.asImplemented.d14_pseudoIDs = true := rfl
-  have hp : ∀ u, powerOf Departures.library i.c u = powerOf Departures.asImplemented i.c u := fun _ => rfl
-  simp only [h1, h2, h3, h4, h5, h6, h7, h8, hp]
-  by_cases hR : (i.c.joinRule == b!"restricted" || i.c.joinRule == b!"knock_restricted") = true
-  · simp only [hR, if_true]
-  · have hR' : (i.c.joinRule == b!"restricted" || i.c.joinRule == b!"knock_restricted") = false := by simpa using hR
-    simp only [hR', Bool.not_false, Bool.true_and, Bool.false_eq_true, if_false] at h ⊢
-    cases hI : (i.c.joinRule == b!"invite") <;> cases hK : (i.sv.knock && i.c.joinRule == b!"knock") <;>
-    cases hP : (i.c.joinRule == b!"public") <;> cases hoi : (i.old.membership == b!"invite") <;>
-    cases hoj : (i.old.membership == b!"join") <;> cases hol : (i.old.membership == b!"leave") <;>
-    simp_all
-
-theorem rulesDecision_lib (c : Ctx) (p : Provider) (sv : SpecVersion) (e : Event) (sig : Bool)
-    (h : touchesUndocumented c p sv e = false) :
-    rulesDecision Departures.library c p sv e sig = rulesDecision Departures.asImplemented c p sv e sig := by
-  unfold touchesUndocumented at h
-  unfold rulesDecision
-  have ha : aliasesRuleApplies Departures.library sv = aliasesRuleApplies Departures.asImplemented sv := rfl
-  rw [ha]
-  by_cases h1 : (e.type == b!"m.room.create") = true
-  · simp only [h1, if_true] at h ⊢
-    unfold ruleCreate
-    have hc : ∀ kvs, creatorPresent Departures.library kvs = creatorPresent Departures.asImplemented kvs := fun _ => rfl
-    simp only [h, Bool.false_eq_true, if_false, hc]
-  · have h1' : (e.type == b!"m.room.create") = false := by simpa using h1
-    simp only [h1', Bool.false_eq_true, if_false] at h ⊢
-    by_cases h2 : (e.type == b!"m.room.aliases") = true
-    · simp only [h2, Bool.true_and]
-      split
-      · rfl
-      · have h2' : e.type = b!"m.room.aliases" := by simpa using h2
-        have l1 : (b!"m.room.aliases" == b!"m.room.member") = false := by decide
-        have l2 : (b!"m.room.aliases" == b!"m.room.power_levels") = false := by decide
-        have l3 : (b!"m.room.aliases" == b!"m.room.redaction") = false := by decide
-        have l4 : (b!"m.room.aliases" == b!"m.room.third_party_invite") = false := by decide
-        simp only [h2', l1, l2, l3, Bool.false_eq_true, if_false]
-        exact ruleCommon_lib c p e (by simp [h2', l4])
-    · have h2' : (e.type == b!"m.room.aliases") = false := by simpa using h2
-      simp only [h2', Bool.false_eq_true, if_false, Bool.false_and] at h ⊢
-      by_cases h3 : (e.type == b!"m.room.member") = true
-      · simp only [h3, if_true] at h ⊢
-        unfold ruleMember
-        cases hsk : e.stateKey with
-        | none => rfl
-        | some target =>
-          cases hnm : newMemberOf e with
-          | none => rfl
-          | some nm =>
-            simp only [hnm, hsk, Bool.or_eq_false_iff] at h ⊢
-            cases hom : membershipOf p target with
-            | none => rfl
-            | some om =>
-              cases hsm : membershipOf p e.sender with
-              | none => rfl
-              | some sm =>
-                simp only [hom] at h ⊢
-                obtain ⟨⟨hmx, htpk⟩, hjoin⟩ := h
-                have hu6l : Departures.library.u6_strayThirdPartyKey = false := rfl
-                have hu6a : Departures.asImplemented.u6_strayThirdPartyKey = true := rfl
-                have hfs : ∀ i : MemberInputs, i.new = nm → federateSubject Departures.library i = federateSubject Departures.asImplemented i := by
-                  intro i hi
-                  unfold federateSubject
-                  rw [hi]
-                  cases hm : nm.mxidMappingUserID with
-                  | none => rfl
-                  | some u => simp [hm] at hmx
-                rw [hfs _ rfl]
-                simp only [hu6l, hu6a, Bool.not_false, Bool.true_or, Bool.true_and, Bool.not_true, Bool.false_or]
-                have hdec : ruleMemberDecision Departures.library (MemberInputs.mk c p e sv target nm om sm sig)
-                    = ruleMemberDecision Departures.asImplemented (MemberInputs.mk c p e sv target nm om sm sig) := by
-                  unfold ruleMemberDecision ruleByMembership
-                  have hfj : ∀ i, ruleFirstJoin Departures.library i = ruleFirstJoin Departures.asImplemented i := fun _ => rfl
-                  have h3p : ∀ i s, ruleThirdPartyInvite Departures.library i s = ruleThirdPartyInvite Departures.asImplemented i s := fun _ _ => rfl
-                  have hinv : ∀ i, ruleInvite Departures.library i = ruleInvite Departures.asImplemented i := fun _ => rfl
-                  have hlv : ∀ i, ruleLeave Departures.library i = ruleLeave Departures.asImplemented i := fun _ => rfl
-                  have hbn : ∀ i, ruleBan Departures.library i = ruleBan Departures.asImplemented i := fun _ => rfl
-                  have hkn : ∀ i, ruleKnock Departures.library i = ruleKnock Departures.asImplemented i := fun _ => rfl
-                  simp only [hfj, h3p, hinv, hlv, hbn, hkn]
-                  by_cases hj : (nm.membership == b!"join") = true
-                  · simp only [hj, Bool.true_and] at hjoin
-                    rw [ruleJoin_lib _ (by simpa using hjoin)]
-                  · have hj' : (nm.membership == b!"join") = false := by simpa using hj
-                    simp only [hj', Bool.false_eq_true, if_false]
-                rw [hdec]
-                cases htk : thirdPartyKeys p nm with
-                | some n => rfl
-                | none =>
-                  simp only [Option.isSome_none, Bool.false_and]
-                  -- the content names a third-party invite without a usable m.room.third_party_invite event: an invite
-                  unfold thirdPartyKeys at htk
-                  cases htp : nm.thirdPartyInvite with
-                  | none => rw [htp] at htk; cases htk
-                  | some s =>
-                    have hinv : (nm.membership == b!"invite") = true := by
-                      simp only [htp, Option.isSome_some, Bool.true_and, bne, Bool.not_eq_false'] at htpk
-                      exact htpk
-                    have hnj : nm.membership = b!"invite" := by simpa using hinv
-                    have htk' : thirdPartyKeys p nm = none := by unfold thirdPartyKeys; rw [htp]; rw [htp] at htk; exact htk
-                    unfold ruleMemberDecision ruleFirstJoin ruleThirdPartyInvite
-                    simp [htp, hnj, htk']
-      · have h3' : (e.type == b!"m.room.member") = false := by simpa using h3
-        simp only [h3', Bool.false_eq_true, if_false] at h ⊢
-        by_cases h4 : (e.type == b!"m.room.power_levels") = true
-        · simp only [h4, if_true]
-          unfold rulePowerLevels
-          have h4' : e.type = b!"m.room.power_levels" := by simpa using h4
-          have l4 : (b!"m.room.power_levels" == b!"m.room.third_party_invite") = false := by decide
-          rw [ruleCommon_lib c p e (by simp [h4', l4])]
-          rfl
-        · have h4' : (e.type == b!"m.room.power_levels") = false := by simpa using h4
-          simp only [h4', Bool.false_eq_true, if_false] at h ⊢
-          by_cases h5 : (e.type == b!"m.room.redaction") = true
-          · simp only [h5, if_true] at h ⊢
-            unfold ruleRedaction
-            have h5' : e.type = b!"m.room.redaction" := by simpa using h5
-            have l4 : (b!"m.room.redaction" == b!"m.room.third_party_invite") = false := by decide
-            rw [ruleCommon_lib c p e (by simp [h5', l4])]
-            have hd5 : Departures.library.d5_redactionByCreateContent = true := rfl
-            have hd5a : Departures.asImplemented.d5_redactionByCreateContent = true := rfl
-            have hp : ∀ u, powerOf Departures.library c u = powerOf Departures.asImplemented c u := fun _ => rfl
-            simp only [hd5, hd5a, if_true, hp]
-            cases hdm : domainFromID e.redacts with
-            | none => simp [hdm] at h
-            | some dom =>
-              cases hu : userOf e.sender with
-              | none =>
-                have : ruleCommon Departures.asImplemented c p e = false := by
-                  unfold ruleCommon; rw [hu]
-                simp [this]
-              | some u => rfl
-          · have h5' : (e.type == b!"m.room.redaction") = false := by simpa using h5
-            simp only [h5', Bool.false_eq_true, if_false] at h ⊢
-            exact ruleCommon_lib c p e h
-
-/-- **C07, partial (the rules of DESIGN.md §6.1).**  Off the input shapes of `touchesUndocumented` (the candidate
-    departures U1–U7: see `undocumented_delta` for a concrete event on each), whenever the rules with exactly the
-    documented departures D1–D15 give an answer, the model of `Allowed` gives the same answer.
-
-    Full-strength statement (FALSE on the unchanged tree, witnesses in `undocumented_delta`):
-      `∀ e p sig b, rulesAllow Departures.library e p sig = some b → decision (allowedFresh e p sig) = some b`. -/
-theorem allowed_eq_spec_partial (e : Event) (p : Provider) (sig : Bool) (b : Bool)
-    (hU : ∀ c sv, ({} : Ctx).update p = .ok c → specVersion? e.ver = some sv → touchesUndocumented c p sv e = false)
-    (h : rulesAllow Departures.library e p sig = some b) : decision (allowedFresh e p sig) = some b := by
-  apply allowed_eq_rules
-  unfold rulesAllow at h ⊢
-  split
-  · rename_i hv; simp only [hv, if_true] at h; exact h
-  · rename_i hv
-    simp only [hv, if_false] at h
-    cases hup : ({} : Ctx).update p with
-    | error v => rw [hup] at h; cases h
-    | ok c =>
-      rw [hup] at h
-      simp only at h ⊢
-      cases hsv : specVersion? e.ver with
-      | none => rw [hsv] at h; cases h
-      | some sv =>
-        rw [hsv] at h
-        simp only at h ⊢
-        rw [← rulesDecision_lib c p sv e sig (hU c sv hup hsv)]
-        exact h
 
 /-! ## Every departure is real: concrete witnesses -/
 
@@ -547,6 +330,8 @@ def off12 : Departures := { Departures.library with d12_firstJoinBySelf := false
 def off13 : Departures := { Departures.library with d13_creatorString := false }
 def off14 : Departures := { Departures.library with d14_pseudoIDs := false }
 def off15 : Departures := { Departures.library with d15_pythonInt := false }
+def off16 : Departures := { Departures.library with d16_invitedJoinsAnyRule := false }
+def off17 : Departures := { Departures.library with d17_redactsNeedsDomain := false }
 
 /-- (event, auth events, signature oracle) -/
 abbrev Witness := Event × List Event × Bool
@@ -602,6 +387,11 @@ def wD14 : Witness :=
 /-- D15: a v9 power-levels event with `"ban": "50"` -/
 def wD15 : Witness := (wPL [(b!"ban", .str b!"50")] b!"@c:x" b!"$pl" b!"9", [wCreate b!"9", wMember b!"@c:x" b!"join" b!"9"], false)
 
+/-- D16: join rule `private`; an invited user joins -/
+def wD16 : Witness := (wMemberEv b!"@a:x" b!"@a:x" b!"join", [wCreate, wJoinRule b!"private", wMember b!"@a:x" b!"invite"], false)
+/-- D17: create content without room_version (v1 rules): the creator (maximal level) redacts, `redacts` absent -/
+def wD17 : Witness := (mkEv b!"10" b!"$e" b!"m.room.redaction" b!"@c:x" none [], [wCreate, wMember b!"@c:x" b!"join"], false)
+
 /-- **Every documented departure is real**: on its witness, switching the flag off changes the verdict of the rules. -/
 theorem spec_delta_documented :
     (wD1.rules .library = some true ∧ wD1.rules off1 = some false) ∧
@@ -618,52 +408,43 @@ theorem spec_delta_documented :
     (wD12.rules .library = some false ∧ wD12.rules off12 = some true) ∧
     (wD13.rules .library = some false ∧ wD13.rules off13 = some true) ∧
     (wD14.rules .library = some true ∧ wD14.rules off14 = some false) ∧
-    (wD15.rules .library = some true ∧ wD15.rules off15 = some false) := by
+    (wD15.rules .library = some true ∧ wD15.rules off15 = some false) ∧
+    (wD16.rules .library = some true ∧ wD16.rules off16 = some false) ∧
+    (wD17.rules .library = some false ∧ wD17.rules off17 = some true) := by
   decide +kernel
 
 /-- on every one of these witnesses the model decides what the rules (library flags) decide -/
 theorem witnesses_model_eq_library :
-    [wD1, wD2, wD3, wD4, wD5, wD6, wD7, wD8, wD9, wD10, wD11, wD12, wD13, wD14, wD15].all
+    [wD1, wD2, wD3, wD4, wD5, wD6, wD7, wD8, wD9, wD10, wD11, wD12, wD13, wD14, wD15, wD16, wD17].all
       (fun w => w.model == w.rules .library) = true := by
   decide +kernel
 
-/-! ### the candidate departures U1–U7: the code (model) decides differently from the §6.1 rules -/
+/-! ### differences found while proving C07 and repaired in /repo: the former failing inputs -/
 
-/-- U1: join rule `private`; an invited user joins -/
-def wU1 : Witness := (wMemberEv b!"@a:x" b!"@a:x" b!"join", [wCreate, wJoinRule b!"private", wMember b!"@a:x" b!"invite"], false)
-/-- U2: join rule `public`; a knocking user joins -/
-def wU2 : Witness := (wMemberEv b!"@a:x" b!"@a:x" b!"join", [wCreate, wJoinRule b!"public", wMember b!"@a:x" b!"knock"], false)
-/-- U3: the creator sends an m.room.third_party_invite event whose state_key is another user's ID -/
-def wU3 : Witness :=
+/-- join rule `public`; a knocking user joins (fixed: 6fda2cc) -/
+def wF1 : Witness := (wMemberEv b!"@a:x" b!"@a:x" b!"join", [wCreate, wJoinRule b!"public", wMember b!"@a:x" b!"knock"], false)
+/-- the creator sends an m.room.third_party_invite event whose state_key is another user's ID (fixed: 17893e1) -/
+def wF2 : Witness :=
   (mkEv b!"10" b!"$e" b!"m.room.third_party_invite" b!"@c:x" (some b!"@o:x") [], [wCreate, wMember b!"@c:x" b!"join"], false)
-/-- U4: create content without room_version (v1 rules): the creator (maximal level) redacts, `redacts` absent -/
-def wU4 : Witness := (mkEv b!"10" b!"$e" b!"m.room.redaction" b!"@c:x" none [], [wCreate, wMember b!"@c:x" b!"join"], false)
-/-- U5: a v11 create event with room_version "99" -/
-def wU5 : Witness := (wCreate b!"11" [(b!"room_version", .str b!"99")], [], false)
-/-- U6: a join in a public room whose content carries a stray `third_party_invite: {}` -/
-def wU6 : Witness :=
+/-- a v11 create event with room_version "99" (fixed: 81e30aa) -/
+def wF3 : Witness := (wCreate b!"11" [(b!"room_version", .str b!"99")], [], false)
+/-- a join in a public room whose content carries a stray `third_party_invite: {}` (fixed: ba68227) -/
+def wF4 : Witness :=
   (wMemberEv b!"@a:x" b!"@a:x" b!"join" b!"10" [(b!"third_party_invite", .obj [])], [wCreate, wJoinRule b!"public"], false)
-/-- U7: a v10 room with m.federate = false: a user of another server joins with `mxid_mapping.user_id` on the creator's server -/
-def wU7 : Witness :=
+/-- a v10 room with m.federate = false: a user of another server joins with `mxid_mapping.user_id` on the creator's
+    server (fixed: c0fa8cc) -/
+def wF5 : Witness :=
   (wMemberEv b!"@a:y" b!"@a:y" b!"join" b!"10"
      [(b!"mxid_mapping", .obj [(b!"user_room_key", .str b!"k"), (b!"user_id", .str b!"@a:x")])],
    [wCreate b!"10" [(b!"creator", .str b!"@c:x"), (b!"m.federate", .bool false)], wJoinRule b!"public"], false)
 
-/-- **The full-strength statement is false on the unchanged tree**: on each of these seven events the model of
-    `Allowed` (hence the code: confirmed through the harness) decides differently from the rules with exactly the
-    departures of DESIGN.md §6.1; with the corresponding candidate flag on, the rules agree with the model. -/
-theorem undocumented_delta :
-    (wU1.model = some true ∧ wU1.rules .library = some false) ∧
-    (wU2.model = some false ∧ wU2.rules .library = some true) ∧
-    (wU3.model = some false ∧ wU3.rules .library = some true) ∧
-    (wU4.model = some false ∧ wU4.rules .library = some true) ∧
-    (wU5.model = some true ∧ wU5.rules .library = some false) ∧
-    (wU6.model = some false ∧ wU6.rules .library = some true) ∧
-    (wU7.model = some true ∧ wU7.rules .library = some false) := by
-  decide +kernel
-
-theorem undocumented_witnesses_as_implemented :
-    [wU1, wU2, wU3, wU4, wU5, wU6, wU7].all (fun w => w.model == w.rules .asImplemented) = true := by
+/-- on the five formerly failing inputs the model of the repaired code decides what the rules decide -/
+theorem repaired_witnesses :
+    (wF1.model = some true ∧ wF1.rules .library = some true) ∧
+    (wF2.model = some true ∧ wF2.rules .library = some true) ∧
+    (wF3.model = some false ∧ wF3.rules .library = some false) ∧
+    (wF4.model = some true ∧ wF4.rules .library = some true) ∧
+    (wF5.model = some false ∧ wF5.rules .library = some false) := by
   decide +kernel
 
 end V.C07
